@@ -266,7 +266,7 @@ func addNodeKeyLines() []string { // const
 
 // returns the peer name should be displayed in the node of the peer in the graph and whether the peer is a cluster peer or not
 func getNodePeerLabelAndType(peer Peer) (string, bool) {
-	if peer.IsPeerIPType() || peer.Name() == common.IngressPodName {
+	if peer.IsPeerIPType() || peer.String() == common.IngressPodString {
 		return peer.String(), true
 	}
 	return dotformatting.NodeClusterPeerLabel(peer.Name(), peer.Kind()), false
